@@ -350,7 +350,7 @@ theorem replace_final_bisync (cfg : Cfg) (st : RState) (t : Target) (e0 : Entry)
     subst hr
     let r1 := Req.restore e0.key (ttlMs cfg.now e0.expireAt) e0.dump (restoreOpts cfg e0) true
     have h : buildUnit .replace cfg st (viewOf t e0) e0 = ([], [r1], .unit, none) := by
-      simp [buildUnit, g.data, g.first, hu, r1]
+      simp [buildUnit, g.data, g.first, hu, r1, viewOf, hb]
     obtain ⟨_, h2, h4⟩ := runBisync_cons_ok _ _ _ _ _ [] _ _ _ _ rfl h
     simp only [runBisync_nil, if_true, List.nil_append] at h2 h4
     rw [h2, h4]
@@ -481,7 +481,7 @@ theorem absent_final_bisync (pol : Policy) (cfg : Cfg) (st : RState) (t : Target
     subst hr
     let r1 := Req.restore e0.key (ttlMs cfg.now e0.expireAt) e0.dump (restoreOpts cfg e0) (pol = .replace)
     have h : buildUnit pol cfg st (viewOf t e0) e0 = (direct, [r1], .unit, none) := by
-      rw [view_none hex]; cases pol <;> simp [buildUnit, g.data, g.first, hu, r1, direct]
+      rw [view_none hex]; cases pol <;> simp [buildUnit, g.data, g.first, hu, r1, direct, hb]
     obtain ⟨_, h2, h4⟩ := runBisync_cons_ok _ _ _ _ _ [] _ _ _ _ rfl h
     simp only [runBisync_nil, if_true] at h2 h4
     rw [h2, h4]
@@ -534,6 +534,43 @@ theorem absent_final_bisync (pol : Policy) (cfg : Cfg) (st : RState) (t : Target
         simp [snapshotObj, hu'])
     exact ⟨this.1, this.2.1⟩
 
+/-- bidirectional replay, a payload the target cannot load ("Bad data format"
+    inside the unit's EXEC) where no probe stops the entry first (key absent, or
+    policy replace): the replay FAILS and the keyspace is unchanged — nothing of
+    the snapshot value is merged, the old value is not removed. -/
+theorem bad_data_bisync_fails (pol : Policy) (cfg : Cfg) (st : RState) (t : Target) (e0 : Entry) (rest : List Entry)
+    (g : Group e0 rest) (hu : useRestore cfg e0 = true) (hb : t.bad e0.key = true)
+    (hreach : t.get e0.key = none ∨ pol = .replace) :
+    (runBisync pol cfg st t (e0 :: rest)).out = .errBad ∧
+    (∀ d k, (runBisync pol cfg st t (e0 :: rest)).tgt.ks d k = t.ks d k) := by
+  have hprobe : ¬ ((pol = .ignore ∨ pol = .error) ∧ (t.get e0.key).isSome = true) := by
+    rintro ⟨hp, hs⟩
+    rcases hreach with h | h
+    · rw [h] at hs; cases hs
+    · subst h; rcases hp with hp | hp <;> cases hp
+  have h : ∃ direct st', buildUnit pol cfg st (viewOf t e0) e0 = (direct, [], .errBad, st') ∧
+      (∀ r ∈ direct, reqKey r = none ∧ noSel r) := by
+    cases pol <;> cases hex : t.get e0.key <;>
+      simp [buildUnit, viewOf, g.data, g.first, hu, hb, hex, execUnit, reqKey, noSel] at hprobe ⊢
+  obtain ⟨direct, st', hbu, hdir⟩ := h
+  obtain ⟨_, h2, h3⟩ := runBisync_cons_err _ _ _ _ _ rest _ _ _ _ (by simp [bOut]) hbu
+  simp only [reduceCtorEq, if_false, List.append_nil] at h2 h3
+  refine ⟨by rw [h2]; rfl, ?_⟩
+  rw [h3]
+  intro d k
+  have : ∀ (L : List Req) (t' : Target), (∀ r ∈ L, reqKey r = none ∧ noSel r) → (applyReqs t' L).ks d k = t'.ks d k := by
+    intro L
+    induction L with
+    | nil => intro t' _; rfl
+    | cons r L ih =>
+      intro t' hL
+      simp only [applyReqs, List.foldl_cons]
+      have hr := hL r (List.mem_cons_self ..)
+      have := ih (applyReq t' r) (fun x hx => hL x (List.mem_cons_of_mem _ hx))
+      simp only [applyReqs] at this
+      rw [this, applyReq_eq t' r hr.2, hr.1]
+  exact this direct t hdir
+
 /-- with the tool's and the target's clocks equal and the snapshot expiry in the
     future, the expiry the key ends with IS the snapshot's absolute expiry -/
 theorem snapshot_exp_abs (cfg : Cfg) (t : Target) (e0 : Entry) (rest : List Entry)
@@ -546,6 +583,49 @@ theorem snapshot_exp_abs (cfg : Cfg) (t : Target) (e0 : Entry) (rest : List Entr
     · split <;> omega
   unfold snapshotObj
   split <;> exact hexp
+
+/-! ## replaceHashTag: the worker replays `retag e`; the per-group theorems apply to retagged groups -/
+
+theorem rewriteCmd_cmdKey (src tgt : Bytes) (c : Cmd) (h : cmdKey c = src) (hne : c.args ≠ [] ) (hx : c.name = sXGROUP → 2 ≤ c.args.length) :
+    cmdKey (rewriteCmd src tgt c) = tgt := by
+  unfold cmdKey rewriteCmd at *
+  by_cases hn : c.name = sXGROUP
+  · simp only [hn, if_true] at h ⊢
+    have := hx hn
+    match hargs : c.args with
+    | [] => rw [hargs] at this; simp at this
+    | [_] => rw [hargs] at this; simp at this
+    | sub :: k :: rest =>
+      rw [hargs] at h
+      simp only [List.drop_succ_cons, List.drop_zero, List.headD_cons] at h
+      simp [h, hn]
+  · simp only [hn, if_false] at h ⊢
+    match hargs : c.args with
+    | [] => exact absurd hargs hne
+    | k :: rest =>
+      rw [hargs] at h
+      simp only [List.headD_cons] at h
+      simp [h, hn]
+
+/-- a key group stays a key group under `retag`, on the rewritten key -/
+theorem retag_group (b : Bool) (e0 : Entry) (rest : List Entry) (g : Group e0 rest) :
+    Group (retag b e0) (rest.map (retag b)) := by
+  have hk0 : (retag b e0).key = if b then stripTag e0.key else e0.key := by
+    unfold retag; cases b <;> simp [g.data]
+  refine ⟨?_, ?_, ?_, ?_⟩
+  · unfold retag; split <;> simp [g.data]
+  · unfold retag; split <;> simp [g.first]
+  · intro e he
+    obtain ⟨e', he', rfl⟩ := List.mem_map.mp he
+    have hl := g.later e' he'
+    refine ⟨?_, ?_, ?_, ?_⟩
+    · rw [hk0]; unfold retag; cases b <;> simp [hl.data, hl.key]
+    · unfold retag; split <;> simp [hl.notFirst]
+    · unfold retag; split <;> simp [hl.data]
+    · unfold retag; split <;> simp [hl.split]
+  · intro hne
+    have : rest ≠ [] := by intro h; apply hne; simp [h]
+    unfold retag; split <;> simp [g.split this]
 
 /-! ## the function tied to the real code is the function of the theorems
 
